@@ -9,6 +9,7 @@ import sys
 REGISTRY = {
     "C01": ("engine", "check_C01"),
     "C14": ("engine", "check_C14"),
+    "C20": ("paramcheck", "check_C20"),
     "C03": ("eems", "check_C03"),
     "C04": ("eems", "check_C04"),
     "C05": ("eems", "check_C05"),
